@@ -11,7 +11,8 @@ Record wf_table (t : seek_table) : Prop := {
   wf_len : lenN (t_entries t) = t_len t + 1;
   wf_small : t_len t < 4294967295;
   wf_d0 : e_d (ent t 0) = 0;
-  wf_mono : forall i j, i <= j -> j <= t_len t -> e_d (ent t i) <= e_d (ent t j)
+  wf_mono : forall i j, i <= j -> j <= t_len t -> e_d (ent t i) <= e_d (ent t j);
+  wf_bound : e_d (ent t (t_len t)) < 18446744073709551616
 }.
 
 Lemma in_range_iff t i : in_range t i = true <-> i < lenN (t_entries t).
